@@ -74,7 +74,10 @@ DN1901 == 693961
 ToDayNumber1901(yy, dy) == 365 * (yy - 1901) + (yy - 1901) \div 4 + dy - 1 + DN1901
 
 Min2(a, b) == IF a < b THEN a ELSE b
-\* inverse: year by division over the 400/100/4/1-year cycles, month by accumulation
+\* inverse: year by division over the 400/100/4/1-year cycles; month and day in closed form
+\* (January and February directly, March onwards by the 153-days-per-5-months rule) --
+\* deliberately a different formulation from the table DaysBefore, DayNumberRoundTrip and
+\* RoundTrip check that the two agree on every day
 FromDayNumber(n) ==
   LET n0   == n - 1
       q400 == n0 \div 146097
@@ -84,10 +87,14 @@ FromDayNumber(n) ==
       q4   == r100 \div 1461
       r4   == r100 % 1461
       q1   == Min2(r4 \div 365, 3)
-      dy   == r4 - q1 * 365 + 1
+      dy   == r4 - q1 * 365 + 1                       \* day of the year, from 1
       yy   == 400 * q400 + 100 * q100 + 4 * q4 + q1 + 1
-      mm   == CHOOSE k \in 1..12 : DaysBefore(yy, k) < dy /\ dy <= DaysBefore(yy, k) + Dim(yy, k)
-  IN <<yy, mm, dy - DaysBefore(yy, mm)>>
+      feb  == IF Leap(yy) THEN 29 ELSE 28
+      e    == dy - 31 - feb - 1                       \* days since 1 March, from 0
+      mp   == (5 * e + 2) \div 153                    \* months since March
+  IN IF dy <= 31 THEN <<yy, 1, dy>>
+     ELSE IF dy <= 31 + feb THEN <<yy, 2, dy - 31>>
+     ELSE <<yy, mp + 3, e - (153 * mp + 2) \div 5 + 1>>
 
 \* ------------------------------------------------------------ time of day
 Hms(s)         == <<s \div 3600, (s % 3600) \div 60, s % 60>>
@@ -194,7 +201,7 @@ TickLength ==
     /\ last = "second" => SecondsBetween(ToDayNumber(p[1], p[2], p[3]), p[4], dn, sod) = 1
     /\ last = "day" => dn = ToDayNumber(p[1], p[2], p[3]) + 1 /\ sod = p[4]
 \* C05: scenario-second offsets round trip (offset -> instant -> offset), a few offsets
-Offsets == {0, 1, 59, 60, 86399, 86400, 86401, 172800, 200000}
+Offsets == {0, 1, 60, 86399, 86400, 200000}
 OffsetsRoundTrip ==
   \A off \in Offsets : LET a == Advance(dn, sod, off)
                        IN /\ SecondsBetween(dn, sod, a[1], a[2]) = off
